@@ -142,7 +142,7 @@ function Parser(input :string) :ValType {
 			if (action > 0) {
 				// shift
 				let sym = new StateSym(action, lookAhead)
-				sym.ValType = model.ValType
+				sym.ValType = {...model.ValType} // a copy, as in the Go parsers: the lexer may reuse its cell
 				PushStateSym(sym)
 				lookAhead = fetchLookAhead(input, model)
 			}else {
